@@ -1,4 +1,5 @@
 """C14 — Maximum Packet Size is honoured in both directions (structural clauses)."""
+import re
 from ..core import AnchorLost, chain, peel, phi_alts, is_call, walk, show, same_shape
 from .. import paths
 from . import roles, outq, ops
@@ -251,8 +252,9 @@ def rule_rx(R):
             # the edge on which `end <= buffer.len()` holds, however the test is spelled (`end <= len`, `!(end > len)`, ..)
             for lab in (True, False):
                 c2 = cc if lab else _panics.negate(cc)
-                if c2[0] == "<=" and c2[1] == _panics.show(peel(end)) and "len(" in c2[2] and "buffer" in c2[2] \
-                        and si["edges"].get(lab) is not None:
+                # the bound is exactly `buffer.len()` -- no arithmetic around it
+                exact_len = re.match(r"^(<impl \[T\]>::|\[T\]::|core::slice::<impl \[T\]>::)?len\(&?\**\(?\**self\.buffer\)?\)$", c2[2]) is not None
+                if c2[0] == "<=" and c2[1] == _panics.show(peel(end)) and exact_len and si["edges"].get(lab) is not None:
                     guard.append((bb, si["edges"][lab], si["edges"].get(not lab)))
         okc = bool(guard) and rb.must_pass([0], [c.bb], via_edges=[(g[0], g[1]) for g in guard])[0]
         okc = okc and start is not None and chain(start)[1] == ["read_bytes"]
